@@ -690,6 +690,8 @@ func Spec() *explore.Spec {
 			{Name: "histories", ShardDepth: 2, Body: histories, Doc: "every sequence of up to 3 documents (10 documents: arrays that grow, shrink to [], null, objects) decoded one after the other into the same variable of 12 slice / array / map / pointer / interface shapes"},
 			{Name: "string-option", ShardDepth: 2, Body: stringOption, Doc: "struct fields tagged ',string' of 22 kinds (floats, signed/unsigned integers, bool, string, pointers to them, Number, any, and float / int / string / bool kinds with their own UnmarshalJSON or UnmarshalText) x every content string built from <= 3 (thorough 4) of 20 tokens (digits, signs, dot, exponent and hex letters, underscore, white space, true/false/null, escaped quotes, Inf, NaN, escapes) - quoted and bare - x {zero, pre-set} target"},
 			{Name: "self-reference", ShardDepth: 2, FatalPerCase: true, Body: selfReference, Doc: "targets whose interface value (any, named empty interface, struct field, slice / array element) holds a pointer to itself, plus a non-cyclic control, x 17 documents x 6 entry points: same result as encoding/json, which decodes into such an interface as if it was empty (a decoder that follows the pointer never returns)"},
+			{Name: "number-literals", ShardDepth: 2, Body: numberLiterals, Doc: "every float64 exponent x 3 (thorough 6) mantissa patterns x both signs, written in ~30 ways (shortest, fixed / exponent / general form with 15..25 digits, float32-shortest, one more digit towards and over the rounding boundary, upper-case exponent) decoded into float64, float32, any and (two mantissas per exponent) pointer, slice, map, struct, integer and array targets x Unmarshal (thorough: also Parse, Decoder): same acceptance and same value as encoding/json"},
+			{Name: "decimal-boundaries", ShardDepth: 2, Body: decimalBoundaries, Doc: "literals of exactly 14..20 significant digits from 14 digit strings around 2^53, 2^52, 2^64, 10^15, the largest and smallest floats x 5 last digits x every position of the decimal point x 6 exponents x 7 targets x 3 entry points: same value as encoding/json (a digit count at which an exact-arithmetic shortcut stops being exact)"},
 			{Name: "unescape", Body: unescape, Doc: "Unescape / AppendUnescape on every string literal of the table"},
 		},
 		Rule: "every (type, document, prior state, entry point) within the deviation bound, plus complete mutation sets and token sequences; distinct non-trivial = distinct tuples / blocks",
